@@ -11589,6 +11589,49 @@ let gen_md_doc m title cmd conts lines code =
     (max_bt (S (S O)) (md_block_text cmd conts (gen_body m lines code)))),
     None, [], (Some ((cmd, conts), (gen_body m lines code))), [])) :: [])
 
+type gtest = { g_title : n list option; g_cmd : n list;
+               g_conts : n list list; g_lines : n list list; g_code : 
+               n }
+
+(** val gen_cram_one : mode -> gtest -> block list **)
+
+let gen_cram_one m t =
+  gen_cram_doc m t.g_title t.g_cmd t.g_conts t.g_lines t.g_code
+
+(** val gen_cram_docs : mode -> gtest list -> block list **)
+
+let rec gen_cram_docs m = function
+| [] -> []
+| t :: r ->
+  (match r with
+   | [] -> gen_cram_one m t
+   | _ :: _ ->
+     app (gen_cram_one m t)
+       (app (BBlank :: (BBlank :: [])) (gen_cram_docs m r)))
+
+(** val gen_md_one : mode -> n list option -> gtest -> elem list **)
+
+let gen_md_one m cfg t =
+  app
+    (match t.g_title with
+     | Some x -> (EHeading ((S O), x)) :: (EBlank :: [])
+     | None -> []) ((EScrut ((S
+    (max_bt (S (S O))
+      (md_block_text t.g_cmd t.g_conts (gen_body m t.g_lines t.g_code)))),
+    cfg, [], (Some ((t.g_cmd, t.g_conts), (gen_body m t.g_lines t.g_code))),
+    [])) :: [])
+
+(** val gen_md_docs : mode -> n list option -> gtest list -> elem list **)
+
+let rec gen_md_docs m cfg = function
+| [] -> []
+| t :: r ->
+  (match r with
+   | [] -> gen_md_one m cfg t
+   | _ :: _ ->
+     app (gen_md_one m cfg t)
+       (app (EBlank :: (EBlank :: [])) (gen_md_docs m cfg r)))
+
 (** val is_az : n -> bool **)
 
 let is_az c =
